@@ -40,7 +40,7 @@ fn main() {
         "histories" => fqv::scen_hist::histories(&mut sink, &arg(&args, "--replay-in", ""), arg(&args, "--grp0", "0").parse().unwrap_or(0)),
         "threads" => fqv::scen_hist::threads(&mut sink, seed, thorough, 1_000_000),
         "fileio" => fqv::scen_file::fileio(&mut sink, seed, thorough, &arg(&args, "--replay-in", "")),
-        "sessions" => fqv::scen_render::sessions(&mut sink, seed, thorough),
+        "sessions" => fqv::scen_render::sessions(&mut sink, seed, thorough, &arg(&args, "--alphabet", ""), &arg(&args, "--replay-in", "")),
         "callbacks" => fqv::scen_render::callbacks(&mut sink, seed, thorough),
         "conv" => fqv::scen_render::conv(&mut sink, seed, thorough),
         "raster" => fqv::scen_render::raster(&mut sink, seed, thorough),
